@@ -16,9 +16,9 @@ struct Shared {
 enum Life { DIRECT, MOVE_CTOR, MOVE_CTOR_CHAIN, MOVE_ASSIGN, TWO_TRIGGERS, NLIFE };
 static const char* LIFEN[] = {"direct", "move_ctor", "move_ctor_chain", "move_assign", "two_triggers"};
 
-template<class MakeTrig, class MakeDet, class MakeDet2, class MakeTrig2>
+template<class MakeTrig, class MakeDet, class MakeDet2, class MakeTrig2, class MakeDet3>
 static void scenario(vrf::Round& R, const char* kind, MakeTrig make_trigger, MakeDet make_detector, MakeDet2 make_other_detector,
-                     MakeTrig2 make_scratch_trigger)
+                     MakeTrig2 make_scratch_trigger, MakeDet3 make_scratch_detector)
 {
     auto& rng = R.rng;
     int life = static_cast<int>(rng.below(NLIFE));
@@ -66,7 +66,14 @@ static void scenario(vrf::Round& R, const char* kind, MakeTrig make_trigger, Mak
                     final_owner.reset(new TripWireTrigger(make_scratch_trigger()));
                     *final_owner = std::move(*t1);
                     vrf::user_point();
-                    t1.reset();
+                    {
+                        // destroying the moved-from trigger "does not trip anything": neither the line it handed over
+                        // (watched by the detectors) nor the line of the trigger that was assigned over
+                        TripWireDetector sd = make_scratch_detector();
+                        bool before = sd.isTripped();
+                        t1.reset();
+                        if (sd.isTripped() != before) vrf::violation("oracle:destroying_a_moved_from_trigger_tripped_a_line", "{\"line\":\"the one of the assigned-over trigger\"}");
+                    }
                     break;
                 }
                 case TWO_TRIGGERS: {
@@ -155,7 +162,8 @@ int main(int argc, char** argv)
             TriplineType other = make_tripline();
             TriplineType scratch = make_tripline();
             scenario(R, "declared", [] { return TripWireTrigger(); }, [] { return TripWireDetector(); },
-                     [other] { return TripWireDetector(other); }, [scratch] { return TripWireTrigger(scratch); });
+                     [other] { return TripWireDetector(other); }, [scratch] { return TripWireTrigger(scratch); },
+                     [scratch] { return TripWireDetector(scratch); });
             break;
         }
         bool indexed = (mode == "indexed" || R.rng.chance(30)) && next_index + 3 <= 4096 && vrf::cfg.only_round < 0;
@@ -184,7 +192,7 @@ int main(int argc, char** argv)
             if (!threw) vrf::violation("oracle:out_of_range_index_accepted", "{\"what\":\"trigger\",\"index\":" + std::to_string(bad) + "}");
             vrf::count("out_of_range_probes", 2);
             scenario(R, "indexed", [idx] { return TripWireTrigger(idx); }, [idx] { return TripWireDetector(idx); },
-                     [oidx] { return TripWireDetector(oidx); }, [sidx] { return TripWireTrigger(sidx); });
+                     [oidx] { return TripWireDetector(oidx); }, [sidx] { return TripWireTrigger(sidx); }, [sidx] { return TripWireDetector(sidx); });
             if (TripWireDetector(oidx).isTripped()) vrf::violation("oracle:other_line_tripped", "{\"index\":" + std::to_string(oidx) + "}");
             vrf::count("indexed_rounds");
         } else {
@@ -192,7 +200,8 @@ int main(int argc, char** argv)
             TriplineType other = make_tripline();
             TriplineType scratch = make_tripline();
             scenario(R, "explicit", [line] { return TripWireTrigger(line); }, [line] { return TripWireDetector(line); },
-                     [other] { return TripWireDetector(other); }, [scratch] { return TripWireTrigger(scratch); });
+                     [other] { return TripWireDetector(other); }, [scratch] { return TripWireTrigger(scratch); },
+                     [scratch] { return TripWireDetector(scratch); });
         }
     }
     vrf::finish();
